@@ -83,6 +83,15 @@ def _linear_body(body: list):
             env[s.targets[0].id] = _sub(s.value, env)
             i += 1
             continue
+        if isinstance(s, ast.Assign) and len(s.targets) == 1 and isinstance(s.targets[0], ast.Tuple) and i < len(body) - 1 \
+                and all(isinstance(x, ast.Name) for x in s.targets[0].elts):
+            # a, b, c = E   ->   a = E[0], b = E[1], c = E[2]
+            v = _sub(s.value, env)
+            for j, x in enumerate(s.targets[0].elts):
+                env[x.id] = v.elts[j] if isinstance(v, (ast.Tuple, ast.List)) and len(v.elts) == len(s.targets[0].elts) \
+                    else ast.Subscript(value=copy.deepcopy(v), slice=ast.Constant(value=j), ctx=ast.Load())
+            i += 1
+            continue
         if isinstance(s, ast.Assert):
             i += 1
             continue
